@@ -71,8 +71,14 @@ def menu_for(tier, algos=None, ks=None):
             # size only; also through a reader whose `name` is another file of another size (the verdict is about
             # the bytes that were stored, not about whatever the argument is called)
             other = len(w.contents[(k + 1) % w.NK])
+            blk = w.blksize
             for sname, sz, valid in (("true size", n, True), ("size+1", n + 1, False), ("size-1", n - 1, False),
-                                     ("size of the file the reader is named after", other, other == n)):
+                                     ("size of the file the reader is named after", other, other == n),
+                                     # sizes at which a reader working block by block could stop early
+                                     ("one read block", blk, blk == n), ("two read blocks", 2 * blk, 2 * blk == n),
+                                     ("all complete read blocks", (n - 1) // blk * blk, False)):
+                if sz >= n and not valid and sname not in ("size+1",):
+                    continue
                 if sz < 1:
                     continue
                 for kind in ("path", "decoder"):
